@@ -69,6 +69,7 @@ inductive Lex2 where
   | uriQ (u r l : Nat) (w1 : Cps) (q : Nat) (its : List SItem) (w2 : Cps)   -- URI, quoted: url( ws? string ws? )
   | identU (u : Nat) (cs : Cps)            -- IDENT that starts with `u` / `U`
   | numF (sg ip : Cps) (d : Nat) (ds : Cps)   -- NUMBER with a fraction: sign? digits* `.` digits+
+  | numS (sg : Cps) (d : Nat) (ds : Cps)   -- NUMBER, integer with optional sign
   | urangeI (u h : Nat) (hs : Cps) (h2 : Nat) (hs2 : Cps)   -- UNICODE-RANGE interval `U+0-7F`
 
 def Lex2.text : Lex2 → Cps
@@ -83,6 +84,7 @@ def Lex2.text : Lex2 → Cps
   | .identD n c cs => dashes n ++ c :: cs
   | .identU u cs => u :: cs
   | .numF sg ip d ds => sg ++ (ip ++ 46 :: d :: ds)
+  | .numS sg d ds => sg ++ d :: ds
   | .urangeI u h hs h2 hs2 => u :: 43 :: (h :: hs ++ 45 :: h2 :: hs2)
   | .uriQ u r l w1 q its w2 => u :: r :: l :: 40 :: (w1 ++ (q :: (flat its ++ q :: (w2 ++ [41]))))
 
@@ -98,6 +100,7 @@ def Lex2.typ : Lex2 → String
   | .identD _ _ _ => "IDENT"
   | .identU _ _ => "IDENT"
   | .numF _ _ _ _ => "NUMBER"
+  | .numS _ _ _ => "NUMBER"
   | .urangeI _ _ _ _ _ => "UNICODE-RANGE"
   | .uriQ _ _ _ _ _ _ _ => "URI"
 
@@ -119,6 +122,7 @@ def Lex2.WF : Lex2 → Prop
   | .identD n c cs => (n = 1 ∨ n = 2) ∧ inR nameStart c = true ∧ ∀ x ∈ cs, inR identRest x = true
   | .identU u cs => IsU u ∧ ∀ x ∈ cs, inR identRest x = true
   | .numF sg ip d ds => IsSign sg ∧ (∀ c ∈ ip, isDigit c = true) ∧ ∀ c ∈ d :: ds, isDigit c = true
+  | .numS sg d ds => IsSign sg ∧ ∀ c ∈ d :: ds, isDigit c = true
   | .urangeI u h hs h2 hs2 => IsU u ∧ (∀ x ∈ h :: hs, inR hexq x = true) ∧ (h :: hs).length ≤ 6 ∧
       (∀ x ∈ h2 :: hs2, inR hexOnly x = true) ∧ (h2 :: hs2).length ≤ 6
   | .uriQ u r l w1 q its w2 => IsU u ∧ IsR r ∧ IsL l ∧ (∀ x ∈ w1, isWsC x = true) ∧ (q = 34 ∨ q = 39) ∧
@@ -295,6 +299,25 @@ theorem lex2_step (doC : Bool) (t : Lex2) (h : t.WF) (stop : Cps) (hs : Sep stop
       · decide
       · exact ne92_of_inR hexOnly (by decide) _ (hh2 _ (by simp))
       · exact ne92_of_inR hexOnly (by decide) _ (hh2 x (List.mem_cons_of_mem _ hx))
+  | numS sg d ds =>
+    obtain ⟨hsg, hd⟩ := h
+    obtain ⟨_, hsgc⟩ := isSign_len sg hsg
+    have hne : sg ++ d :: ds ≠ [] := by simp
+    have hchars : ∀ x ∈ sg ++ d :: ds, inR numChars x = true := by
+      intro x hx
+      rcases List.mem_append.mp hx with hx | hx
+      · exact hsgc x hx
+      · have hy := hd x hx
+        simp only [isDigit, Bool.and_eq_true, decide_eq_true_eq] at hy
+        simp [inR, numChars]; omega
+    apply loop_step2 doC fuel (sg ++ d :: ds) stop line col "NUMBER" hne
+    · intro c t e
+      exact not_fast_of_ranges numChars (by decide) c (hchars c (by rw [e]; simp))
+    · have := scan_number_int doC sg d ds stop hsg hd hs
+      have hl : (sg ++ d :: ds).length = sg.length + (d :: ds).length := by simp
+      rw [hl]
+      simpa [List.append_assoc] using this
+    · exact valueOf_plain _ _ _ (by decide) (by decide)
   | numF sg ip d ds =>
     obtain ⟨hsg, hip, hd⟩ := h
     obtain ⟨_, hsgc⟩ := isSign_len sg hsg
@@ -382,6 +405,14 @@ theorem lex2_head (t : Lex2) (h : t.WF) : ∃ c w, t.text = c :: w ∧ inR lexHe
   | identU u cs =>
     refine ⟨u, cs, rfl, ?_⟩
     rcases h.1 with rfl | rfl <;> decide
+  | numS sg d ds =>
+    obtain ⟨hsg, hd⟩ := h
+    have hd0 := hd d (by simp)
+    simp only [isDigit, Bool.and_eq_true, decide_eq_true_eq] at hd0
+    rcases hsg with rfl | rfl | rfl
+    · exact ⟨d, ds, rfl, by simp [inR, lexHeads]; omega⟩
+    · exact ⟨43, d :: ds, rfl, by decide⟩
+    · exact ⟨45, d :: ds, rfl, by decide⟩
   | numF sg ip d ds =>
     obtain ⟨hsg, hip, hd⟩ := h
     have hdig : ∀ y, isDigit y = true → inR lexHeads y = true := by
